@@ -56,17 +56,23 @@ PROPS = {
         trusted_extra=["the real binaries are run as processes; their CSVs are parsed by the harness"],
     ),
     "C20": dict(
-        lean_modules=["AlphaG.Props.C20"],
+        lean_modules=["AlphaG.Props.C20", "AlphaG.Props.C20Streams"],
         required_theorems=["AlphaG.Csv.cbtime_correct", "AlphaG.Csv.cbtime_wrong_side_late",
                            "AlphaG.Csv.cbtime_wrong_side_early", "AlphaG.Csv.cbtime_none_iff",
                            "AlphaG.Csv.never_wrong", "AlphaG.Csv.rows_complete",
                            "AlphaG.Csv.fails_closed_remainder", "AlphaG.Csv.fails_closed_no_epoch0",
-                           "AlphaG.Csv.fails_closed_first_marker", "AlphaG.Csv.boardRows_total"],
+                           "AlphaG.Csv.fails_closed_first_marker", "AlphaG.Csv.boardRows_total",
+                           "AlphaG.Csv.hwStream_rows", "AlphaG.Csv.stream_never_wrong", "AlphaG.Csv.stream_empty_iff",
+                           "AlphaG.Csv.hwStream_counters", "AlphaG.Csv.dropped_marker_never_wrong",
+                           "AlphaG.Csv.dropped_epoch_fails", "AlphaG.Csv.duplicated_marker_never_wrong",
+                           "AlphaG.Csv.rowsGo_ordered"],
         harness=[("c20", ["dev"])],
         level_text="Lean theorems against an independent hardware model, for any tick and any marker counter: an edge in its "
                    "own marker interval gets its true time (cbtime_correct), displaced edges get none, never a wrong time "
                    "whatever two hardware markers enclose it (never_wrong), exact characterisation of empty times, one row per "
-                   "timestamp after the counter-0 marker (rows_complete), fails closed, no panic. The real binary is run on "
+                   "timestamp after the counter-0 marker (rows_complete), fails closed, no panic; lifted to whole legal hardware "
+                   "streams of any length (hwStream_rows: the rows are exactly the expected ones; stream_never_wrong; "
+                   "stream_empty_iff) and to streams with any marker dropped or duplicated (…_never_wrong). The real binary is run on "
                    "hardware-model streams with every cut pattern and single fault on every check.",
         level_note="Partial: the theorems are about the model of chronobox_time and of the row loop; the binary is tied by "
                    "end-to-end differential runs (sampled), not proved. FIFO parsing itself is C07. Repaired defect F3 "
@@ -243,19 +249,19 @@ PROPS = {
         assumptions=["PADWING_BOARDS is regenerated from the source on every run (translator)"],
     ),
     "C02": dict(
-        lean_modules=["AlphaG.Props.C02"],
+        lean_modules=["AlphaG.Props.C02", "AlphaG.Props.C02Converse"],
         required_theorems=["AlphaG.Adc." + t for t in [
             "adc_accept_iff", "adc_fields", "adc_waveform", "adc_roundtrip", "adc_roundtrip_exact",
             "adc_decode_injective", "adc_baseline_floor", "adc_baseline_accepted", "adc_total", "adcPacket_total",
-            "adc_no_overflow", "adc_encode_decode_partial"]],
+            "adc_no_overflow", "adc_encode_decode", "adc_encode_decode_long", "wfPacket_iff"]],
         harness=[("c02", ["dev", "release"])],
         level_text="Lean theorems over all byte strings: accept iff the documented layout and consistency rules incl. the floor "
                    "baseline and the keep_last/keep_bit/suppression ladder with requested_samples >= 2 explicit (adc_accept_iff), "
                    "every accessor = its big-endian field with two's-complement signedness (adc_fields, adc_waveform), "
                    "re-encoding = input modulo the two unused footer bits (adc_roundtrip) and injectivity of decoding modulo "
                    "those bits, floor-division baseline, totality and absence of usize overflow.",
-        level_note="decode(encode p) = p is proved for the 16-byte form only (adc_encode_decode_partial; long form sampled by "
-                   "the harness). The hand-written model is tied to AdcV3Packet::try_from by the differential run in dev and "
+        level_note="Both directions of the round trip are proved (adc_roundtrip; adc_encode_decode for every packet value "
+                   "satisfying WfPacket, which is exactly the set of decodable packets: wfPacket_iff). The hand-written model is tied to AdcV3Packet::try_from by the differential run in dev and "
                    "release builds (full decision table of the property's quantifier, all single-bit flips, all truncations) "
                    "with an independent well-formedness predicate and re-encoder as oracle. Repaired defect F1 "
                    "(requested_samples < 2) is reported again if it returns. Display is not covered.",
@@ -378,5 +384,62 @@ PROPS = {
              "calibration dispatch; distinct by request line",
         assumptions=["&str is modelled as a list of scalar values with its UTF-8 length",
                      "HashMap::get and lazy_static initialisation are trusted"],
+    ),
+    "C15": dict(
+        lean_modules=["AlphaG.Props.C15"],
+        required_theorems=["AlphaG.Cluster." + t for t in [
+            "cluster_partition", "cluster_min_size", "cluster_connected", "clusters_disjoint", "cluster_total"]]
+            + ["AlphaG.Vertexing." + t for t in ["vertex_partition", "secondaries_empty", "primary_min_two"]],
+        harness=[("c15", ["dev"])],
+        disagreement_is_failing_input=False,
+        level_text="Lean theorems for point multisets of any size, any bin function and any symmetric distance relation: the "
+                   "clustering (Hough accumulator with IndexMap insertion order, most_popular = last maximum, flood fill with "
+                   "pop/swap_remove, best_cluster loop, remainder bookkeeping) terminates with fuel |sp|+1, fires none of its "
+                   "unwraps, and its output is a partition of the input as a multiset (cluster_partition), every cluster has at "
+                   "least min points and is connected by chains of near-steps inside it, clusters are disjoint; vertex finding "
+                   "partitions the tracks between the primary vertex and the remainder, reports no secondaries and a primary "
+                   "only with >= 2 tracks.",
+        level_note="Hypotheses (checked on every generated cloud by the harness): == is an equivalence (NaN-free points), "
+                   "get_bins respects == and lists no bin twice, distance is symmetric; 1 <= min (the code passes 13). The model "
+                   "is tied to the code by replaying the combinatorial algorithm on the bins and adjacency computed by the real "
+                   "code (same clusters in the same order, same remainder order) and by independent oracles on the real "
+                   "output. IndexMap and sort_unstable_by semantics are modelled.",
+        technique="Lean 4 theorems (accumulator-as-multiset invariant, fuel sufficiency) over an abstract combinatorial model "
+                  "+ replay correspondence on real bins/adjacency + oracles on the implementation's output",
+        design_ref="DESIGN.md section 6, C15",
+        rule="cases: random clouds, 1-5 helical tracks with noise, exact duplicates, 0..=400 points (2000 in thorough), other "
+             "min/grid/distance parameters, size boundaries around 13, degenerate families; find_vertices on track lists of "
+             "size 0..=8 with ties; distinct by request line",
+        assumptions=["IndexMap keeps insertion order; max_by_key returns the last maximum", "sort_unstable_by returns a permutation"],
+    ),
+    "C14": dict(
+        lean_modules=["AlphaG.Props.C14", "AlphaG.Props.C15"],
+        required_theorems=["AlphaG.C14." + t for t in [
+            "cluster_total", "closest_t_range", "collinear_rejected", "fit_assert_unreachable", "fit_sites_total",
+            "fit_sites_panic", "minBy_total", "minmax_some"]]
+            + ["AlphaG.Vertexing.vertex_total", "AlphaG.Vertexing.vertex_panic_sites"],
+        harness=[("c14", ["dev"]), ("c15", ["dev"])],
+        disagreement_is_failing_input=False,
+        oracle_failing_regex=r"panic|non-finite|not finite|NaN|outside|out of range|range",
+        level_text="Lean theorems for the logic of the reconstruction stages: clustering always returns (cluster_total); the "
+                   "closest-approach parameter is within [-pi, pi] whenever it is not NaN (closest_t_range); the exact "
+                   "collinearity test returns NoInitialParameters exactly when the circle through the three template points "
+                   "would divide 0/0 (collinear_rejected, over a field); and a panic-site inventory: which unwrap/assert sites of "
+                   "track fitting and vertex finding are unreachable by construction, and that the remaining ones fire exactly "
+                   "when a NaN reaches a partial_cmp().unwrap() or a cost-function assert (fit_sites_*, vertex_total, "
+                   "vertex_panic_sites).",
+        level_note="Partial, said plainly: that no NaN or infinity arises in f64 inside the Newton iteration, hypot/atan2, the "
+                   "complex division for nearly collinear points, or argmin's Nelder-Mead cannot be proved here (no IEEE-754 "
+                   "semantics in this toolchain); that half is adversarial sampling on the implementation under catch_unwind "
+                   "(10 degenerate families x 400, pitch 0/subnormal/1e-17..1e2, 13 k cases quick, 260 k thorough), labelled "
+                   "as sampling in the evidence.",
+        technique="Lean 4 theorems on the combinatorial/algebraic logic + panic-site inventory; adversarial sampling of the "
+                  "f64 behaviour on the implementation",
+        design_ref="DESIGN.md section 6, C14",
+        rule="cases: fits of clusters from ten degenerate families (exactly/nearly collinear with perturbations 1e-18..1e-2, "
+             "repeated points, equal radii, vertical lines, circles through the origin, dyadic grids, ...), find_vertices on "
+             "helices with pitch 0, subnormal, +-1e-17..+-1e2, closest_t sweeps; plus the clustering replay of C15; distinct by "
+             "request line",
+        assumptions=["argmin Nelder-Mead and libm are uninterpreted", "IEEE comparison semantics: a comparison with NaN is false, partial_cmp with NaN is None"],
     ),
 }
